@@ -91,6 +91,19 @@ var parked = map[string]bool{
 	"sync.Mutex.Lock": true, "sync.RWMutex.RLock": true, "sync.RWMutex.Lock": true,
 }
 
+// isParked: a parked wait state, or a plain "semacquire" that the stack shows to be a
+// sync.WaitGroup.Wait / sync.Mutex.Lock (Go 1.23 reports those as semacquire); a semacquire inside
+// the runtime (world stop, GC start) is transient and does not count.
+func isParked(g G) bool {
+	if parked[g.State] {
+		return true
+	}
+	if g.State == "semacquire" {
+		return strings.Contains(g.Stack, "sync.(*WaitGroup).Wait") || strings.Contains(g.Stack, "sync.(*Mutex).Lock") || strings.Contains(g.Stack, "sync.(*RWMutex).")
+	}
+	return false
+}
+
 // Base is the set of goroutines that existed before a case started.
 type Base map[int64]bool
 
@@ -122,7 +135,7 @@ func (b Base) Verdict() (int, []G) {
 		return None, nil
 	}
 	for _, g := range rel {
-		if !parked[g.State] {
+		if !isParked(g) {
 			return Progress, rel
 		}
 	}
